@@ -444,7 +444,8 @@ def handle (sess : Sess) (rep : Report) (ln : Nat) (toks : List String) (obs : S
     let a := args rest
     match (arg a "a").toNat?, (arg a "b").toNat? with
     | some ca, some cb =>
-      if obs == "bad-op" then
+      if obs == "bad-op" && arg a "park" == "1" then (sess, rep.bump "pool.no_point_to_stop_the_detector_at")   -- test and count are one critical section: nothing was called
+      else if obs == "bad-op" then
         match sess.model with
         | some s => if (s.calls.any (·.id == ca)) && (s.calls.any (·.id == cb)) && ca != cb
                     then ({ sess with model := none }, { rep.msg s!"DIVERGE line={ln} model=ok impl=bad-op" with diverged := rep.diverged + 1 })
